@@ -118,6 +118,75 @@ Definition print_stream (w0 w1 w2 : N) (secs : list section) : bytes :=
   flat_map (fun s => print_rows w0 w1 w2 (entries s)) secs.
 
 (* ------------------------------------------------------------------ *)
+(** * the classic cross-reference table as a printer (§7.5.4) *)
+
+(** the three 2-byte end-of-line forms of a 20-byte entry: SP LF, SP CR, CR LF *)
+Inductive eol := SpLf | SpCr | CrLf.
+Definition eol_bytes (e : eol) : bytes :=
+  match e with SpLf => [32; 10] | SpCr => [32; 13] | CrLf => [13; 10] end.
+
+(** [k] decimal digits, most significant first, zero padded *)
+Fixpoint digits (k : nat) (v : N) : bytes :=
+  match k with
+  | O => []
+  | S j => (48 + (v / 10 ^ N.of_nat j) mod 10) :: digits j v
+  end.
+
+(** an entry a classic table can describe: in use or free, 10-digit offset / next free number, 5-digit generation *)
+Definition row_fits (e : xref) : Prop :=
+  match e with
+  | XFree a g => a < 10 ^ 10 /\ g < 10 ^ 5
+  | XRaw a g => a < 10 ^ 10 /\ g < 10 ^ 5
+  | _ => False
+  end.
+
+(** "nnnnnnnnnn ggggg n eol" / "nnnnnnnnnn ggggg f eol" *)
+Definition print_row (e : xref) (el : eol) : bytes :=
+  match e with
+  | XFree nx g => digits 10 nx ++ 32 :: digits 5 g ++ 32 :: 102 :: eol_bytes el
+  | XRaw p g => digits 10 p ++ 32 :: digits 5 g ++ 32 :: 110 :: eol_bytes el
+  | _ => []
+  end.
+
+Definition print_rows_t (es : list xref) (els : list eol) : bytes :=
+  concat (map (fun x => print_row (fst x) (snd x)) (combine es els)).
+
+(** white-space (ISO 32000-1 Table 1) *)
+Definition iso_white : list N := [0; 9; 10; 12; 13; 32].
+Definition gap (g : bytes) : Prop := Forall (fun b => In b iso_white) g.
+(** delimiters (Table 2); a keyword ends at the end of the text, at white-space or at a delimiter *)
+Definition iso_delim : list N := [40; 41; 60; 62; 91; 93; 123; 125; 47; 37].
+Definition token_end (rest : bytes) : Prop :=
+  match rest with b :: _ => In b iso_white \/ In b iso_delim | [] => True end.
+
+(** the free choices of a writer: white-space before a subsection header, between its two numbers,
+    after it, and the end-of-line form of every row; white-space after `xref` and before `trailer` *)
+Record sub_layout := { l_pre : bytes; l_mid : bytes; l_heol : bytes; l_eols : list eol }.
+Record layout := { l_first : bytes; l_subs : list sub_layout; l_end : bytes }.
+
+Definition print_sub (L : sub_layout) (s : section) : bytes :=
+  l_pre L ++ dec_of_N (first_id s) ++ l_mid L ++ dec_of_N (lenN (entries s)) ++ l_heol L
+  ++ print_rows_t (entries s) (l_eols L).
+
+Definition kw_xref : bytes := [120; 114; 101; 102].
+Definition kw_trailer : bytes := [116; 114; 97; 105; 108; 101; 114].
+
+Definition print_subs (Ls : list sub_layout) (secs : list section) : bytes :=
+  concat (map (fun x => print_sub (fst x) (snd x)) (combine Ls secs)).
+
+(** `xref` … subsections … `trailer` (the trailer dictionary follows) *)
+Definition print_table_spec (L : layout) (secs : list section) : bytes :=
+  kw_xref ++ l_first L ++ print_subs (l_subs L) secs ++ l_end L ++ kw_trailer.
+
+Definition sub_ok (L : sub_layout) (s : section) : Prop :=
+  gap (l_pre L) /\ gap (l_mid L) /\ l_mid L <> [] /\ gap (l_heol L) /\ l_heol L <> [] /\
+  length (l_eols L) = length (entries s) /\ Forall row_fits (entries s) /\
+  first_id s < 2 ^ 32 /\ lenN (entries s) < 2 ^ 32.
+
+Definition layout_ok (L : layout) (secs : list section) : Prop :=
+  gap (l_first L) /\ l_first L <> [] /\ gap (l_end L) /\ Forall2 sub_ok (l_subs L) secs.
+
+(* ------------------------------------------------------------------ *)
 (** * bytes before the header *)
 
 (** [pat] has no proper border: no proper non-empty suffix is a prefix *)
